@@ -308,6 +308,7 @@ package bkl
 // ------------------------------------------------------------------------------------------------- parser.go (output side)
 
 //@ func Parser.outputDocument(p, doc) (res, err)
+//@   property C01, C02, C03, C04, C07, C10, C12, C13, C14, C17 shallow   -- every property that says "... is an error" is observed through this function: a failure below it must surface (propagates)
 //@   propagates all   [C08] [C20] [C07] [C03]
 //@   property C19
 //@   modifies nothing
@@ -415,6 +416,7 @@ package bkl
 //@     invariant (=> (and (canon dst@pre) (canon src)) (canon dst))
 
 //@ func Document.Process(d, mergeFromDocs) (docs, err)
+//@   property C01, C02, C03, C04, C07, C10, C12, C13, C14, C17 shallow   -- every property that says "... is an error" is observed through this function: a failure below it must surface (propagates)
 //@   propagates all   [C08] [C20] [C07] [C03]
 //@   uses rappLen
 
@@ -707,6 +709,7 @@ package bkl
 //@     invariant (not (anyRejected (store (old (heap Document.Data)) patch (VMap (store (mc (old (Document.Data patch))) "$match" VAbsent))) done
 //@                          (VMap (store (mc (old (Document.Data patch))) "$match" VAbsent))))
 //@ func Parser.mergeFile(p, f) (err)
+//@   property C01, C02, C03, C04, C07, C10, C12, C13, C14, C17 shallow   -- every property that says "... is an error" is observed through this function: a failure below it must surface (propagates)
 //@   propagates all   [C08] [C20] [C07] [C03]
 //@   property C02
 //@   modifies Parser.docs, Document.Data, Document.Parents, Document.ID
@@ -720,6 +723,7 @@ package bkl
 //@     invariant (forall ((r Int)) (=> (rmem r rest) (not (rmem r (Parser.docs p)))))
 //@     invariant (>= allocTop (old allocTop))
 //@ func Parser.MergeFile(p, path) (err)
+//@   property C01, C02, C03, C04, C07, C10, C12, C13, C14, C17 shallow   -- every property that says "... is an error" is observed through this function: a failure below it must surface (propagates)
 //@   propagates all   [C08] [C20] [C07] [C03]
 //@   property C02
 //@   property C03
@@ -733,24 +737,25 @@ package bkl
 //@     invariant (and (= (heap Parser.docs) (old (heap Parser.docs))) true)
 //@   modifies Parser.docs, Document.Data, Document.Parents
 //@ func Parser.MergeFileLayers(p, path) (err)
+//@   property C01, C02, C03, C04, C07, C10, C12, C13, C14, C17 shallow   -- every property that says "... is an error" is observed through this function: a failure below it must surface (propagates)
 //@   propagates all   [C08] [C20] [C07] [C03]
 //@   property C02
 //@   modifies Parser.docs, Document.Data, Document.Parents
 
 //@ func Parser.Output(p, format) (out, err)
-//@   property C07, C17 shallow   -- a failed evaluation (an unresolved $required above all) must surface as a failure of every output method
+//@   property C01, C02, C03, C04, C07, C10, C12, C13, C14, C17 shallow   -- every property that says "... is an error" is observed through this function: a failure below it must surface (propagates)
 //@   propagates all   [C08] [C20] [C07] [C03]
 //@   property C19
 //@   property C05
 //@   ensures (=> (= (fmtByName format) 0) (isErr err))                                                      [C05]
 //@   modifies nothing
 //@ func Parser.OutputDocuments(p) (res, err)
-//@   property C07, C17 shallow   -- a failed evaluation (an unresolved $required above all) must surface as a failure of every output method
+//@   property C01, C02, C03, C04, C07, C10, C12, C13, C14, C17 shallow   -- every property that says "... is an error" is observed through this function: a failure below it must surface (propagates)
 //@   propagates all   [C08] [C20] [C07] [C03]
 //@   property C19
 //@   modifies nothing
 //@ func Parser.OutputToWriter(p, fh, format) (err)
-//@   property C07, C17 shallow   -- a failed evaluation (an unresolved $required above all) must surface as a failure of every output method
+//@   property C01, C02, C03, C04, C07, C10, C12, C13, C14, C17 shallow   -- every property that says "... is an error" is observed through this function: a failure below it must surface (propagates)
 //@   property C19
 //@   property C05
 //@   property C20 shallow
@@ -759,7 +764,7 @@ package bkl
 //@     assert (= format (ite (= format@pre "") "json-pretty" format@pre))                                  [C05]
 //@   modifies nothing
 //@ func Parser.OutputToFile(p, path, format) (err)
-//@   property C07, C17 shallow   -- a failed evaluation (an unresolved $required above all) must surface as a failure of every output method
+//@   property C01, C02, C03, C04, C07, C10, C12, C13, C14, C17 shallow   -- every property that says "... is an error" is observed through this function: a failure below it must surface (propagates)
 //@   property C19
 //@   property C05
 //@   property C20 shallow
@@ -827,6 +832,7 @@ package bkl
 //@   ensures (= (heap Document.Data) (old (heap Document.Data)))
 //
 //@ func Parser.loadFileAndParents(p, path, child) (res, err)
+//@   property C01, C02, C03, C04, C07, C10, C12, C13, C14, C17 shallow   -- every property that says "... is an error" is observed through this function: a failure below it must surface (propagates)
 //@   propagates all   [C08] [C20] [C07] [C03]
 //@   property C03
 //@   uses rlastSnoc
